@@ -70,7 +70,7 @@ fn observe(e: &GraphEngine, idx: &[(String, String)], probes: &[i64]) -> J {
 }
 
 pub fn run(obs: &Arc<Obs>, scenarios: &[J], out: &mut dyn Write, scratch: &Path) -> J {
-    let (mut n_steps, mut n_pages, mut n_nodes) = (0u64, 0u64, 0u64);
+    let (mut n_steps, mut n_pages, mut n_nodes, mut n_images) = (0u64, 0u64, 0u64, 0u64);
     for sc in scenarios {
         let id = sc["id"].as_str().unwrap_or("s");
         let dir = scratch.join("pages");
@@ -89,6 +89,14 @@ pub fn run(obs: &Arc<Obs>, scenarios: &[J], out: &mut dyn Write, scratch: &Path)
             let op = st["op"].as_str().unwrap_or("");
             let mut ev = json!({"ev": "step", "op": op});
             let e = engine.as_ref();
+            let crash = st["crash"].as_bool().unwrap_or(false);
+            let ext_before = next_ext;
+            if crash {
+                obs.start_io(&dir, true);
+                // power-loss images start from the files as they are now (unsynced earlier writes are taken as persisted,
+                // which is one of the states a power loss may leave)
+                obs.io.lock().unwrap().synced = crate::obs::read_dir_files(&dir);
+            }
             let res: Result<Result<J, String>, _> = catch_unwind(AssertUnwindSafe(|| -> Result<J, String> {
                 match op {
                     "nodes" => {
@@ -174,6 +182,35 @@ pub fn run(obs: &Arc<Obs>, scenarios: &[J], out: &mut dyn Write, scratch: &Path)
                     _ => Err("unknown step".into()),
                 }
             }));
+            if crash {
+                // every distinct process-death / power-loss image of this step: opened by the real recovery code and read back
+                obs.stop_io();
+                *obs.page_log.lock().unwrap() = false;
+                let images = obs.take_images();
+                let mut seen: std::collections::HashSet<u64> = Default::default();
+                let idir = scratch.join("pages-img");
+                for img in images {
+                    use std::hash::{Hash, Hasher};
+                    let mut h = std::collections::hash_map::DefaultHasher::new();
+                    img.files.hash(&mut h);
+                    img.kind.hash(&mut h);
+                    if !seen.insert(h.finish()) { continue; }
+                    crate::obs::write_image(&idir, &img.files);
+                    let mut ce = json!({"ev": "crashobs", "op": op, "kind": img.kind, "site": img.site, "io_step": img.step, "st": st, "first": ext_before});
+                    match open_engine(&idir) {
+                        Ok(e2) => {
+                            ce["open"] = json!("ok");
+                            let o = observe(&e2, &indexes, &[]);
+                            for k in ["nodes", "edges", "lookups", "errs"] { ce[k] = o[k].clone(); }
+                        }
+                        Err(m) => { ce["open"] = json!(m); for k in ["nodes", "edges", "lookups", "errs"] { ce[k] = json!([]); } }
+                    }
+                    writeln!(out, "{}", ce).unwrap();
+                    n_images += 1;
+                }
+                let _ = std::fs::remove_dir_all(&idir);
+                *obs.page_log.lock().unwrap() = true;
+            }
             let mut ok = false;
             match res {
                 Ok(Ok(info)) => { ev["res"] = json!("ok"); ev["info"] = info; ok = true; }
@@ -219,5 +256,5 @@ pub fn run(obs: &Arc<Obs>, scenarios: &[J], out: &mut dyn Write, scratch: &Path)
         drop(engine);
         let _ = std::fs::remove_dir_all(&dir);
     }
-    json!({"scenarios": scenarios.len(), "steps": n_steps, "page_events": n_pages, "nodes_created": n_nodes})
+    json!({"scenarios": scenarios.len(), "steps": n_steps, "page_events": n_pages, "nodes_created": n_nodes, "crash_images": n_images})
 }
